@@ -320,9 +320,35 @@ def _exhaustive_cells(ctx: core.Ctx, shard: int, nshards: int, tier: str) -> Non
                     ctx.run({"kind": "tag", "shape": shape, "vals": [a, b], "form": form, "mode": MODES[(li + ai) % 3]})
 
 
+PUMPS = [
+    ("nested-path", lambda n: "{{ " + "a[" * n + "a" + "]" * n + " }}"),
+    ("and-chain", lambda n: "{% if " + " and ".join(["a"] * n) + " %}x{% endif %}"),
+    ("or-chain-elsif", lambda n: "{% if a %}{% elsif " + " or ".join(["b"] * n) + " %}x{% endif %}"),
+    ("nested-range", lambda n: "{% for i in " + "(" * n + "1..2" + ")" * n + " %}x{% endfor %}"),
+    ("nested-group", lambda n: "{% if " + "(" * n + "a" + ")" * n + " %}x{% endif %}"),
+    ("not-chain", lambda n: "{% if " + "not " * n + "a %}x{% endif %}"),
+    ("filter-chain", lambda n: "{{ a" + " | upcase" * n + " }}"),
+    ("dotted-path", lambda n: "{{ a" + ".b" * n + " }}"),
+    ("liquid-lines", lambda n: "{% liquid\n" + "echo a\n" * n + "%}"),
+    ("when-list", lambda n: "{% case a %}{% when " + ", ".join(["1"] * n) + " %}x{% endcase %}"),
+]
+
+
+def _pumps(ctx: core.Ctx, shard: int, nshards: int, sizes: list) -> None:
+    """Deeply nested / very long expressions: recursion in the expression parsers."""
+    i = 0
+    for name, make in PUMPS:
+        for n in sizes:
+            for mode in MODES:
+                i += 1
+                if i % nshards == shard:
+                    ctx.run({"kind": "src", "src": make(n), "mode": mode, "data": {"a": {"a": 1, "b": {"b": 2}}, "b": False}})
+
+
 def campaign(ctx: core.Ctx, tier: str, shard: int, nshards: int) -> None:
     quick = tier == "quick"
     seed = core.sub_seed(ctx.seed, shard)
+    _pumps(ctx, shard, nshards, [200, 1500, 4000] if quick else [200, 1000, 1500, 4000, 20000])
     if quick:
         core.drive(filter_cells(), ctx.run, n=14000 // nshards, seed=seed)
         core.drive(tag_cells(), ctx.run, n=8000 // nshards, seed=seed + 1)
